@@ -226,7 +226,8 @@ Written from the meaning of the typing constructs, not from the code: a value co
 the right Python type at every level, tuple arity, `Literal` membership (same type *and* value), Enum
 membership, dictionary keys of the declared key type.
 
-`confL ll lk` is the validator with two requirements that can be relaxed: with `ll` a `Literal` member may be
+`confL P ll lk` is the validator (`P` = the predicates of the restricted types: comparisons / regular expression,
+see Core/AdaptRestr.lean) with two requirements that can be relaxed: with `ll` a `Literal` member may be
 matched by Python `==` instead of identity (`True` for `Literal[1]`), with `lk` dictionary keys are not looked
 at.  `conf = confL false false` is the specification; the relaxed versions delimit the two known deviations
 of the code exactly. -/
@@ -239,42 +240,43 @@ def DKey.conf : KTy → DKey → Bool
 def litLoose (ls : List Lit) (v : Val) : Bool := ls.any (fun l => pyEq l.toVal v)
 
 mutual
-def confL (ll lk : Bool) : Ty → Val → Bool
+def confL (P : Nat → Val → Bool) (ll lk : Bool) : Ty → Val → Bool
   | .str, v => match v with | .str _ => true | _ => false
   | .int, v => match v with | .int _ => true | _ => false
   | .float, v => match v with | .flt _ => true | _ => false
   | .bool, v => match v with | .bool _ => true | _ => false
   | .none, v => match v with | .null => true | _ => false
   | .any, _ => true
-  | .union ts, v => confLAny ll lk ts v
-  | .list t, v => match v with | .list xs => xs.all (fun x => confL ll lk t x) | _ => false
+  | .union ts, v => confLAny P ll lk ts v
+  | .list t, v => match v with | .list xs => xs.all (fun x => confL P ll lk t x) | _ => false
   | .dict k t, v => match v with
-      | .dict kvs => kvs.all (fun kv => (lk || DKey.conf k kv.1) && confL ll lk t kv.2)
+      | .dict kvs => kvs.all (fun kv => (lk || DKey.conf k kv.1) && confL P ll lk t kv.2)
       | _ => false
-  | .tuple ts, v => match v with | .tuple xs => confLZip ll lk ts xs | _ => false
-  | .tupleVar t, v => match v with | .tuple xs => xs.all (fun x => confL ll lk t x) | _ => false
-  | .set t, v => match v with | .set xs => xs.all (fun x => confL ll lk t x) | _ => false
+  | .tuple ts, v => match v with | .tuple xs => confLZip P ll lk ts xs | _ => false
+  | .tupleVar t, v => match v with | .tuple xs => xs.all (fun x => confL P ll lk t x) | _ => false
+  | .set t, v => match v with | .set xs => xs.all (fun x => confL P ll lk t x) | _ => false
   | .literal ls, v => if ll then litLoose ls v else ls.any (fun l => l.same v)
   | .enum c ms, v => match v with | .enum c' n => c == c' && ms.contains n | _ => false
-  | .rnum b _, v => (match b, v with            -- the right base type (the restriction itself is C20's subject)
+  | .rnum b k, v => (match b, v with            -- the right base type AND the restriction of the type
       | .int, .int _ => true
       | .float, .flt _ => true
       | .str, .str _ => true
-      | _, _ => false)
+      | _, _ => false) && P k v
   | .reg k, v => match v with | .obj k' _ => k == k' | _ => false
-def confLAny (ll lk : Bool) : List Ty → Val → Bool
+def confLAny (P : Nat → Val → Bool) (ll lk : Bool) : List Ty → Val → Bool
   | [], _ => false
-  | t :: ts, v => confL ll lk t v || confLAny ll lk ts v
-def confLZip (ll lk : Bool) : List Ty → List Val → Bool
+  | t :: ts, v => confL P ll lk t v || confLAny P ll lk ts v
+def confLZip (P : Nat → Val → Bool) (ll lk : Bool) : List Ty → List Val → Bool
   | [], xs => xs.isEmpty
   | t :: ts, xs => match xs with
     | [] => false
-    | x :: xs => confL ll lk t x && confLZip ll lk ts xs
+    | x :: xs => confL P ll lk t x && confLZip P ll lk ts xs
 end
 
-/-- the specification: strict validator -/
-abbrev conf (t : Ty) (v : Val) : Bool := confL false false t v
+/-- the specification: strict validator (`P k v`: the value `v` of the base type satisfies the restriction of the
+    restricted type number `k`) -/
+abbrev conf (P : Nat → Val → Bool) (t : Ty) (v : Val) : Bool := confL P false false t v
 
-abbrev Conforms (t : Ty) (v : Val) : Prop := conf t v = true
+abbrev Conforms (P : Nat → Val → Bool) (t : Ty) (v : Val) : Prop := conf P t v = true
 
 end Jap.Adapt
